@@ -11,7 +11,7 @@ import re
 from gen import irgen
 from vlib import core, passlib
 
-COQ_TARGETS = ["Props/C05.vo"]
+COQ_TARGETS = ["Props/C05.vo", "Model/SpecChain.vo"]
 PROPS = "Props/C05.v"
 TRUSTED = [
     "reference sites enumerated by coq/Model/Refs.v (refs, constant refs, map index types, enum member types, struct-hint disjunctions, discriminator mapping targets, entry points)",
@@ -128,7 +128,8 @@ def run(ctx, verdict, replay=None, model_ok=True):
     ctx.log("implementation ran: %d pass cases" % len(results))
     ev = passlib.eval_cases(ctx, "cases_C05", results,
                             [("MM", "case_mismatch"), ("ND", "case_new_dangling"), ("FI", "case_filter_inexact"),
-                             ("IR", "case_input_resolves"), ("UM", "case_unmodelled")], imports="Model.Spec05")
+                             ("IR", "case_input_resolves"), ("UM", "case_unmodelled"),
+                             ("AL", "fun c => andb (case_mismatch c) (case_alias c)")], imports="Model.Spec05 Model.SpecChain")
     ctx.log("coq evaluated: mismatch=%d new_dangling=%d filter_inexact=%d (inputs resolving: %d)" %
             (len(ev["MM"]), len(ev["ND"]), len(ev["FI"]), len(ev["IR"])))
 
@@ -175,7 +176,9 @@ def run(ctx, verdict, replay=None, model_ok=True):
         explained.add(i)
     explained.update(ev["FI"])
     crashed = [i for i, r in enumerate(results) if r["status"] != "OK"]   # crashes are C04's subject
-    unexplained = [{"job": jobs[i], "observed": results[i]["outcome"][:3000]} for i in ev["MM"] if i not in explained]
+    # a model mismatch is reported whatever else the case shows, unless the sequence is one in which Go's pointer
+    # sharing between passes is observable (Model/SpecChain.v): the functional model does not decide those
+    unexplained = [{"job": jobs[i], "observed": results[i]["outcome"][:3000]} for i in ev["MM"] if i not in set(ev["AL"])]
 
     # front-ends
     plines = core.run_harness_robust(binp, "parse", [json.dumps(j) for j in parse_jobs]) if parse_jobs else []
@@ -228,6 +231,7 @@ def run(ctx, verdict, replay=None, model_ok=True):
         "parsed_schemas": {"total": len(pres), "ok": len(okp), "dangling": len(pd)},
         "cases_with_unmodelled_pass": len(ev["UM"]),
         "mismatches_model_vs_impl": len(ev["MM"]),
+        "mismatches_on_pointer_sharing_sensitive_sequences_not_judged": len(ev["AL"]),
         "new_dangling_cases": len(ev["ND"]),
         "runs_that_crashed_the_implementation_not_judged_here": len(crashed),
         "filter_inexact_cases": len(ev["FI"]),
